@@ -452,6 +452,7 @@ class TheCheck(Check):
     def run(self):
         log("[%s] tier=%s seed=%d" % (self.prop, self.tier, self.seed))
         pre = []
+        vlib.regenerate_all(skip=("lock",))
         try:
             self.lock, _ = lc.regenerate_lock()
             for n in self.lock.c13:
